@@ -64,17 +64,22 @@ End MapN.
 Definition memN (k : N) (l : list N) : bool := existsb (N.eqb k) l.
 
 (* ---- configuration ---------------------------------------------------------------------------------- *)
-(* the two places where the code before and after the repair of P15 differ *)
+(* the two places where the code before and after the repair of P15 differ, and the one where the code before
+   and after the repair of glob-member-touch (P73) differs *)
 Record variant := { v_own_only : bool;        (* thorough pass restricted to the step's own dependencies *)
-                    v_consult  : bool }.      (* thorough-not-changed branch consults the dependency steps *)
-Definition v_fixed   : variant := {| v_own_only := true;  v_consult := true |}.
-Definition v_unfixed : variant := {| v_own_only := false; v_consult := false |}.
+                    v_consult  : bool;        (* thorough-not-changed branch consults the dependency steps *)
+                    v_glob_content : bool }.  (* fixed_P73: GlobDep::diff_thorough compares names and contents only;
+                                                 false: it also compares the (superficial) metadata digests *)
+Definition v_fixed   : variant := {| v_own_only := true;  v_consult := true;  v_glob_content := true |}.
+Definition v_unfixed : variant := {| v_own_only := false; v_consult := false; v_glob_content := false |}.
 (* what /repo's source says now (Gen/DiffTables.v) *)
-Definition v_code : variant := {| v_own_only := code_thorough_own_only; v_consult := code_tnc_consults_dep_steps |}.
+Definition v_code : variant := {| v_own_only := code_thorough_own_only; v_consult := code_tnc_consults_dep_steps;
+                                  v_glob_content := code_glob_thorough_content_only |}.
 
 Record stepcfg := {
   s_when  : when3;
   s_deps  : list dep;            (* own dependencies that are compared (every kind except Step) *)
+  s_globs : list dep;            (* those of s_deps that are --glob dependencies (GlobDep) *)
   s_sdeps : list step;           (* explicit Step dependencies (count as dependencies, compare as Skipped) *)
   s_ideps : list step;           (* dependency steps through output files (graph edges only) *)
   s_ok    : bool;                (* the command exits 0 *)
@@ -86,6 +91,11 @@ Definition s_edges (c : stepcfg) : list step := s_sdeps c ++ s_ideps c.
 Definition no_deps (c : stepcfg) : bool :=
   match s_deps c, s_sdeps c with [], [] => true | _, _ => false end.
 Definition rcond (c : stepcfg) : runcond := rc_of (s_when c) (no_deps c).
+
+(* the dependencies whose thorough comparison is sensitive to the superficial fingerprint: the --glob
+   dependencies of the code before the repair of glob-member-touch, none after it *)
+Definition msens (v : variant) (cfg : config) : list dep :=
+  if v_glob_content v then [] else flat_map s_globs cfg.
 
 (* ---- run state -------------------------------------------------------------------------------------- *)
 Inductive bwhy := BDepSteps | BMissingDep | BExit.
@@ -126,10 +136,14 @@ Definition sup_compare (r : option wval) (w : wval) : dentry :=
   | None => DRecordMissing w
   | Some (rs, _) => if N.eqb rs (fst w) then DIdentical else DDifferent w
   end.
-Definition tho_compare (r : option wval) (w : wval) : dentry :=
+(* [m]: the thorough comparison also compares the superficial fingerprint (GlobDep::diff_thorough before the
+   repair: paths+metadata digest, metadata digest and content digest) *)
+Definition tho_eq (m : bool) (r w : wval) : bool :=
+  N.eqb (snd r) (snd w) && (negb m || N.eqb (fst r) (fst w)).
+Definition tho_compare (m : bool) (r : option wval) (w : wval) : dentry :=
   match r with
   | None => DRecordMissing w
-  | Some (_, rt) => if N.eqb rt (snd w) then DIdentical else DDifferent w
+  | Some rv => if tho_eq m rv w then DIdentical else DDifferent w
   end.
 
 (* superficial comparison of a step's own dependencies; None: one of them cannot be inspected *)
@@ -148,17 +162,17 @@ Fixpoint sup_entries (recs world : list (dep * wval)) (ds : list dep) : option (
 
 (* thorough pass over map entries: changed -> thorough comparison, otherwise Skipped;
    None: the comparison fails (uwr! panics in the step thread) *)
-Fixpoint tho_entries (recs world : list (dep * wval)) (es : list (dep * dentry)) : option (list (dep * dentry)) :=
+Fixpoint tho_entries (gl : list dep) (recs world : list (dep * wval)) (es : list (dep * dentry)) : option (list (dep * dentry)) :=
   match es with
   | [] => Some []
   | (d, e) :: r =>
       match (if changed e then match getN world d with
                                | None => None
-                               | Some w => Some (tho_compare (getN recs d) w)
+                               | Some w => Some (tho_compare (memN d gl) (getN recs d) w)
                                end
              else Some DSkipped) with
       | None => None
-      | Some e' => match tho_entries recs world r with
+      | Some e' => match tho_entries gl recs world r with
                    | None => None
                    | Some l => Some ((d, e') :: l)
                    end
@@ -196,9 +210,9 @@ Definition sup_phase (recs : list (dep * wval)) (c : stepcfg) (i : step) (σ : r
       else decide_not_changed true c i σ'
   end.
 
-Definition tho_phase (v : variant) (recs : list (dep * wval)) (c : stepcfg) (i : step) (σ : rstate) : rstate :=
+Definition tho_phase (v : variant) (gl : list dep) (recs : list (dep * wval)) (c : stepcfg) (i : step) (σ : rstate) : rstate :=
   let targets := if v_own_only v then filter (fun de => memN (fst de) (s_deps c)) (r_diffs σ) else r_diffs σ in
-  match tho_entries recs (r_world σ) targets with
+  match tho_entries gl recs (r_world σ) targets with
   | None => set_state σ i LPanic
   | Some ents =>
       let σ' := set_diffs σ (updN_all (r_diffs σ) ents) in
@@ -212,7 +226,7 @@ Definition event (v : variant) (cfg : config) (recs : list (dep * wval)) (σ : r
   | Some c =>
       match getL (r_lst σ) i with
       | LInit => sup_phase recs c i σ
-      | LSupChanged => tho_phase v recs c i σ
+      | LSupChanged => tho_phase v (msens v cfg) recs c i σ
       | _ => σ
       end
   end.
@@ -294,8 +308,16 @@ Definition all_outcomes (v : variant) (cfg : config) (recs world : list (dep * w
 Definition topo (cfg : config) : bool :=
   forallb (fun ic => forallb (fun j => Nat.ltb j (fst ic)) (s_edges (snd ic))) (combine (steps_of cfg) cfg).
 
-(* own dependency with a record whose thorough fingerprint equals the world's *)
-Definition tho_same (recs world : list (dep * wval)) (d : dep) : bool :=
+(* own dependency with a record that the code's thorough comparison finds identical to the world
+   ([gl] = msens v cfg: the dependencies compared with their superficial fingerprints too) *)
+Definition tho_same (gl : list dep) (recs world : list (dep * wval)) (d : dep) : bool :=
+  match getN recs d, getN world d with
+  | Some r, Some w => tho_eq (memN d gl) r w
+  | _, _ => false
+  end.
+(* own dependency with a record whose thorough (content-level) fingerprint equals the world's: what the
+   property means by "unchanged" *)
+Definition content_same (recs world : list (dep * wval)) (d : dep) : bool :=
   match getN recs d, getN world d with
   | Some (_, rt), Some (_, wt) => N.eqb rt wt
   | _, _ => false
@@ -306,16 +328,24 @@ Definition sup_same (recs world : list (dep * wval)) (d : dep) : bool :=
   | _, _ => false
   end.
 (* a step all of whose dependencies are unchanged in content, some of them touched *)
-Definition touch_only (recs world : list (dep * wval)) (c : stepcfg) : bool :=
-  forallb (tho_same recs world) (s_deps c) && negb (forallb (sup_same recs world) (s_deps c)).
-Definition really_changed (recs world : list (dep * wval)) (c : stepcfg) : bool :=
-  negb (forallb (tho_same recs world) (s_deps c)).
+Definition touch_only (gl : list dep) (recs world : list (dep * wval)) (c : stepcfg) : bool :=
+  forallb (tho_same gl recs world) (s_deps c) && negb (forallb (sup_same recs world) (s_deps c)).
+Definition really_changed (gl : list dep) (recs world : list (dep * wval)) (c : stepcfg) : bool :=
+  negb (forallb (tho_same gl recs world) (s_deps c)).
 
 (* P15: a touch-only step next to a step with a really changed dependency, or next to a command that
    writes dependencies (whose entries may then be really changed when the touch-only step looks) *)
-Definition Known_P15 (cfg : config) (recs world : list (dep * wval)) : bool :=
-  existsb (touch_only recs world) cfg &&
-  (existsb (really_changed recs world) cfg || existsb (fun c => match s_effs c with [] => false | _ => true end) cfg).
+Definition Known_P15 (gl : list dep) (cfg : config) (recs world : list (dep * wval)) : bool :=
+  existsb (touch_only gl recs world) cfg &&
+  (existsb (really_changed gl recs world) cfg || existsb (fun c => match s_effs c with [] => false | _ => true end) cfg).
+
+(* glob-member-touch (P73): a --glob dependency whose members were touched (superficial fingerprint differs) while
+   names and contents are what the record says; the class follows the switch: with the repair no dependency is
+   compared with its superficial fingerprint, and the class is empty *)
+Definition glob_touched (recs world : list (dep * wval)) (d : dep) : bool :=
+  content_same recs world d && negb (sup_same recs world d).
+Definition Known_glob_touch (v : variant) (cfg : config) (recs world : list (dep * wval)) : bool :=
+  existsb (glob_touched recs world) (msens v cfg).
 
 (* the first sentence of the property read literally ("no step except always / no dependencies") is
    refuted by design for steps downstream of such a step: "a step also runs if a step it depends on was
@@ -326,3 +356,7 @@ Definition taint_step (ts : list bool) (c : stepcfg) : bool :=
 Definition tainted (cfg : config) : list bool := fold_left (fun ts c => ts ++ [taint_step ts c]) cfg [].
 Definition Known_downstream_of_forced (cfg : config) : bool :=
   existsb (fun p => snd p && negb (forced (fst p))) (combine cfg (tainted cfg)).
+
+(* no step thread can take a phase: every thread is finished (done / broken / panicked) *)
+Definition quiescent (cfg : config) (σ : rstate) : bool :=
+  match filter (enabled cfg σ) (steps_of cfg) with [] => true | _ => false end.
